@@ -64,7 +64,8 @@ CLAIMED = {
              "returns exactly the system it was entered with (state equality incl. solver, objective, direction, context stack) and __exit__ does "
              "not raise; op_well_recorded per operation. Tied to the code by the Core correspondence and by full snapshots at __enter__ vs after "
              "__exit__ on generated nested programs over all context-aware public ops. "
-             "Analysis helpers inside contexts (add_pfba, add_moma, add_room, add_loopless, fix_objective_as_constraint; nested, repeated, raising): inside the block the solver problem is the Lean builder's, after the block it is AuxM.Net.fba of the content (captured-problem comparison).",
+             "Analysis helpers inside contexts (add_pfba, add_moma, add_room, add_loopless, fix_objective_as_constraint; nested, repeated, raising): inside the block the solver problem is the Lean builder's, after the block it is AuxM.Net.fba of the content (captured-problem comparison). "
+             "Refused assignments: ResetM (Model/Resettable.lean) models the resettable wrapper around a bound setter whose value passes the setter's check and is refused by the solver interface (NaN): refused_assignment_is_undone (accepted assignments in any number and a refused one at the end: __exit__ does not raise, bound and solver variable as at __enter__), late_recording_does_not_restore, assignment_after_refused_one_breaks_exit (the known finding as a theorem about the model of the code as it is); the real Reaction.lower_bound setter runs the same sequences (resettable_stage), and blocks with refused assignments (NaN / strings, caught inside or leaving the block) are compared by full snapshot (late_failure_stage).",
         note=CORE_NOTE, technique="Lean 4 proof (LIFO undo by mutual induction over nested programs) + snapshot comparison on the real model",
         design="DESIGN.md section 5, C03"),
     "C07": dict(
@@ -96,6 +97,7 @@ CLAIMED = {
              "fraction in [0,1] and a non-negative optimum (optimal_solution_inside); regions are nested in the fraction; the pfba_factor cap on "
              "sum(forward+reverse) is a cap on sum|v| (total_flux_cap_is_abs). Every reported minimum/maximum is compared with optima certified "
              "by the proved checker on the independently built region (fractions, pfba_factor, subsets by id or object, max and min models). "
+             "An end of a range certified unbounded (feasible point + improving ray, LP.checkUnbdd) has no true extreme (unbounded_end_has_no_maximum / _minimum): FVA may refuse to answer there, a finite number is a violation. "
              "Whole problem: an optimum of the problem _fva_step solves (AuxM.Net.fvaStep: fva_old_objective variable and row, optional flux_sum cap, unit objective, sense) is the true extreme of v_i over the region 'steady state, bounds, objective at or beyond fraction x optimum, total flux at most the cap' (fva_problem_optimum, fva_problem_reaches_region). Whole-problem layer (lean/CobraModel/Model/AuxProb.lean, Lemmas/AuxProb.lean): the complete solver problem cobrapy builds is a Lean function of the model content and the arguments, compared entry by entry (variables, boxes, kinds, row names, bounds, coefficients, objective, direction; exact rationals) with the raw GLPK problem read at the moment of every solve (harness/auxcorr.py); a mismatch is followed by oracle cases on the same model.",
         note=LP_NOTE + " Loopless FVA (CycleFreeFlux post-processing) is not proved exact: checked to lie inside the plain ranges, min <= max, and to equal "
              "the plain ranges on networks without internal cycles (exact rank test).",
@@ -157,6 +159,7 @@ CLAIMED = {
              "exchanges only enlarges the feasible set (widen_box). The true blocked set of every generated network comes from certified LPs; "
              "find_blocked_reactions (reaction_list by id/object, open_exchanges) must equal it; fastcc must keep no blocked reaction, drop no "
              "irreversible unblocked reaction and leave stoichiometry, bounds and rules unchanged. "
+             "Main loop of fastcc (Model/Fastcc.lean: the bookkeeping around the external LP solves): fastcc_keeps_only_unblocked, fastcc_dropped_reaction_was_tested (a reaction is dropped only after an unflipped solve over all remaining reactions found none of them), fastcc_solves_bounded; the solves the real fastcc makes are recorded (wrapped _find_sparse_mode / _flip_coefficients / Model.optimize) and the Lean loop, fed their answers, must ask for the same sets and keep the same reactions (loop_stage). "
              "Whole problem: LP-7 of fastcc (AuxM.Net.fastcc) is sound for irreversible reactions and its optimum dominates sum min(thr, |v_i|) of every feasible flux vector (lp7_problem_sound, lp7_problem_optimum_ge); FVA at fraction 0 is AuxM.Net.fvaStep. Whole-problem layer (lean/CobraModel/Model/AuxProb.lean, Lemmas/AuxProb.lean): the complete solver problem cobrapy builds is a Lean function of the model content and the arguments, compared entry by entry (variables, boxes, kinds, row names, bounds, coefficients, objective, direction; exact rationals) with the raw GLPK problem read at the moment of every solve (harness/auxcorr.py); a mismatch is followed by oracle cases on the same model.",
         note=LP_NOTE + " fastcc completeness is a known finding (drops unblocked reversible reactions, known_findings.json): only that signature is tolerated.",
         technique="Lean 4 proof (blockedness from certificates) + certified differential testing",
